@@ -462,9 +462,11 @@ class DeclaredVsExtracted(Stream):
             b.pop("broken_backend", None)
             if sorted(b["requires"]) == sorted(a["requires"]):
                 b["requires"] = list(a["requires"]) + ["only-in-the-other-build"]
-        return {"first": b, "spec": a, "cwd": rng.choice(["neutral", "project", "parent"])}
+        return {"first": b, "spec": a, "cwd": rng.choice(["neutral", "project", "parent"]),
+                # how a project directory is named: `proj`, `proj/`, `.` (from inside it)
+                "spelling": rng.choice(["plain", "plain", "trailing-slash", "dot"])}
 
-    def _extract(self, spec, root, pk, cwd_kind, keep_state=None):
+    def _extract(self, spec, root, pk, cwd_kind, keep_state=None, spelling="plain"):
         from rv import procsnap as PS
         import req_compile.metadata
         os.makedirs(os.path.join(root, "neutral"), exist_ok=True)
@@ -477,7 +479,12 @@ class DeclaredVsExtracted(Stream):
         try:
             with contextlib.redirect_stderr(io.StringIO()), contextlib.redirect_stdout(io.StringIO()):
                 try:
-                    r = req_compile.metadata.extract_metadata(os.path.relpath(path, real_cwd) if pk == "dir" and cwd_kind != "project" else path)
+                    given = os.path.relpath(path, real_cwd) if pk == "dir" and cwd_kind != "project" else path
+                    if pk == "dir" and spelling == "trailing-slash":
+                        given = given + os.sep
+                    elif pk == "dir" and spelling == "dot" and cwd_kind == "project":
+                        given = "."
+                    r = req_compile.metadata.extract_metadata(given)
                 finally:
                     moved[0] = PS.ORIG_GETCWD() != os.path.realpath(real_cwd) and PS.ORIG_GETCWD() != real_cwd
             return {"name": r.name, "version": str(r.version), "views": views_of_result(r, sorted(e.lower() for e in spec["extras"])),
@@ -502,7 +509,7 @@ class DeclaredVsExtracted(Stream):
             snap = PS.take()
             first = self._extract(case["first"], os.path.join(root, "one"), pk, "neutral", keep_state=snap)
             try:
-                out["per"][pk] = self._extract(case["spec"], os.path.join(root, "two"), pk, case["cwd"], keep_state=snap)
+                out["per"][pk] = self._extract(case["spec"], os.path.join(root, "two"), pk, case["cwd"], keep_state=snap, spelling=case.get("spelling", "plain"))
             finally:
                 PS.restore(snap)
             out.setdefault("first", {})[pk] = first
@@ -520,6 +527,8 @@ class DeclaredVsExtracted(Stream):
         fl = ["style-" + s["style"], "version-" + s["version_from"], "reqs-" + s["reqs_from"], "here-" + s["here"], "import-" + s["setup_import"], "cwd-" + case["cwd"]]
         if s["extras"]:
             fl.append("extras")
+        if case.get("spelling", "plain") != "plain":
+            fl.append("directory-named-" + case["spelling"])
         if s.get("extras_as_text") and s["style"] == "kwargs":
             fl.append("extras-given-as-text")
         if s.get("marker_extra") and s["style"] == "kwargs":
